@@ -183,6 +183,12 @@ def check_e2e(case, rec):
             want_groups.append(g)
     if sorted(groups) != sorted(want_groups):
         rec.violation('reported_once', 'groups() names %r, written %r' % (groups, want_groups))
+    if list(tf) != groups or len(tf) != len(groups) or any(g not in tf for g in groups):
+        rec.violation('reported_once', 'iter(file) %r, len(file) %d or the "in" operator disagree with groups() %r' % (
+            list(tf), len(tf), groups))
+    for (g, c) in pairs:
+        if g in tf and (c not in tf[g] or c not in list(tf[g])):
+            rec.violation('lookup', 'channel %r is not reported by "in" / iteration of group %r (%r)' % (c, g, list(tf[g])))
     for g in case['extra_groups']:
         if g in tf and tf[g].properties.get('tag') != g:
             rec.violation('confused', 'group %r carries tag %r' % (g, tf[g].properties.get('tag')))
